@@ -63,6 +63,15 @@ Theorem c14_decision_is_taken : forall nres ncie mp source q0 a b c ls s0 (sigma
 Proof. exact fair_decision. Qed.
 Print Assumptions c14_decision_is_taken.
 
+(** ... and from any reachable state, the source still producing (the reader's steps included) *)
+Theorem c14_decision_is_taken_any : forall nres ncie mp source q0 a b c ls s0 (sigma : nat -> st) (lam : nat -> option label),
+  run nres ncie mp (init source q0 a b c) ls = Some s0 -> no_cmd (map amop_of (pc s0)) = true ->
+  sigma 0 = s0 -> a || b || c = true ->
+  exec st label (step nres ncie mp) inner2 sigma lam -> wfair st label (step nres ncie mp) inner2 sigma lam ->
+  exists t, decided (sigma t) <> None.
+Proof. exact fair_decision_any. Qed.
+Print Assumptions c14_decision_is_taken_any.
+
 (** at rest with an option still pending, the decision has been recorded (no reachable state rests undecided) *)
 Theorem c14_rest_decided : forall nres ncie mp source q0 a b c ls s,
   run nres ncie mp (init source q0 a b c) ls = Some s ->
